@@ -416,12 +416,12 @@ impl<'de, 'a> SeqAccess<'de> for SA<'a> {
 // ------------------------------------------------------------------------------------------------
 // payload family: std types plus a nested struct with HAND-WRITTEN impls (no derive)
 
-#[derive(Clone, Debug, PartialEq)]
+#[derive(Clone, Debug, PartialEq, Default)]
 struct Inner {
     a: i32,
     b: bool,
 }
-#[derive(Clone, Debug, PartialEq)]
+#[derive(Clone, Debug, PartialEq, Default)]
 struct Outer {
     id: u32,
     name: String,
@@ -637,6 +637,109 @@ fn de_case<T: DeserializeOwned + PartialEq + fmt::Debug>(input: &V, k: usize) ->
     format!("T={} Arc={} Unique={}", t_shown, a, u)
 }
 
+/// `deserialize_in_place` (the entry point serde_derive's `deserialize_in_place` feature and
+/// `Vec<T>`'s in-place path use) into an existing handle.  `shared`: the place is an `Arc` with two
+/// more owners; otherwise a `UniqueArc`.  Observed: the result/log, the place afterwards (count, fresh
+/// block, value == T's), the old allocation afterwards (count, value untouched), Arc-block allocations.
+fn dip_handle<T>(input: &V, k: usize, t_res: &Result<T, E>, t_allocs: &[(usize, usize, usize)], shared: bool) -> String
+where
+    T: DeserializeOwned + PartialEq + fmt::Debug + Default,
+{
+    let lay = arc_layout::<T>();
+    let is_arc = |x: &(usize, usize, usize)| (x.1, x.2) == lay;
+    let c = Ctl::new(k);
+    let old_val = T::default();
+    // the place and the other owners of its allocation
+    let mut place_a: Option<Arc<T>> = None;
+    let mut place_u: Option<UniqueArc<T>> = None;
+    let mut others: Vec<Arc<T>> = Vec::new();
+    let old_blk;
+    set_recording(true);
+    if shared {
+        let a = Arc::new(T::default());
+        others.push(a.clone());
+        others.push(a.clone());
+        old_blk = harness::rec_of(a.heap_ptr() as usize).map(|x| x.0);
+        place_a = Some(a);
+    } else {
+        let u = UniqueArc::new(T::default());
+        old_blk = harness::rec_of(&*u as *const T as usize).map(|x| x.0);
+        place_u = Some(u);
+    }
+    set_recording(false);
+    let _ = take_events();
+    set_recording(true);
+    let r: Result<(), E> = if shared {
+        <Arc<T> as Deserialize>::deserialize_in_place(D { v: input, ctl: &c }, place_a.as_mut().unwrap())
+    } else {
+        <UniqueArc<T> as Deserialize>::deserialize_in_place(D { v: input, ctl: &c }, place_u.as_mut().unwrap())
+    };
+    set_recording(false);
+    let mut evs = take_events();
+    let shown = c.show(&r);
+    let passthrough = c.passthrough(&r);
+    let allocs = allocs_of(&evs);
+    let arc_here = allocs.iter().filter(|x| is_arc(x)).count() as i64;
+    let arc_in_t = t_allocs.iter().filter(|x| is_arc(x)).count() as i64;
+    let place: Arc<T> = match (place_a, place_u) {
+        (Some(a), _) => a,
+        (_, Some(u)) => u.shareable(),
+        _ => unreachable!(),
+    };
+    let count = Arc::count(&place);
+    let blk = harness::rec_of(place.heap_ptr() as usize);
+    let fresh = match blk {
+        Some((i, 0)) => allocs.iter().any(|x| x.0 == i && is_arc(x)) && harness::rec(i).live,
+        _ => false,
+    };
+    let place_same = blk.map(|x| x.0) == old_blk;
+    let old_live = old_blk.map(|i| harness::rec(i).live).unwrap_or(false);
+    let old_count = if shared { Arc::count(&others[0]) } else if old_live { 1 } else { 0 };
+    let old_same = if shared { *others[0] == old_val } else { !old_live || *place == old_val };
+    let res = match &r {
+        Ok(()) => {
+            let eq = match t_res {
+                Ok(tv) => *place == *tv,
+                Err(_) => false,
+            };
+            format!("{}[count={},allocs={},fresh={},eq={},old_count={},old_same={}]", shown, count, arc_here - arc_in_t, fresh, eq, old_count, old_same)
+        }
+        Err(e) => {
+            let same_msg = match t_res {
+                Err(te) => te.msg == e.msg,
+                Ok(_) => false,
+            };
+            format!("{}[allocs={},old_count={},old_same={},place_same={}]{{passthrough={},same_msg={}", shown, arc_here - arc_in_t, old_count, old_same, place_same, passthrough, same_msg)
+        }
+    };
+    set_recording(true);
+    drop(place);
+    drop(others);
+    drop(r);
+    set_recording(false);
+    evs.extend(take_events());
+    let leaked = allocs.iter().filter(|x| harness::rec(x.0).live).count() + old_blk.map(|i| harness::rec(i).live as usize).unwrap_or(0);
+    if res.ends_with(']') {
+        format!("{}{{leaked={},bad_events={},nhr_same=true}}", res, leaked, bad_events(&evs))
+    } else {
+        format!("{},leaked={},bad_events={},nhr_same=true}}", res, leaked, bad_events(&evs))
+    }
+}
+
+fn dip_case<T: DeserializeOwned + PartialEq + fmt::Debug + Default>(input: &V, k: usize) -> String {
+    let c = Ctl::new(k);
+    set_recording(true);
+    let rt: Result<T, E> = T::deserialize(D { v: input, ctl: &c });
+    set_recording(false);
+    let evs = take_events();
+    let t_allocs = allocs_of(&evs);
+    let t_shown = format!("{}{{passthrough={}}}", c.show(&rt), c.passthrough(&rt));
+    let a = dip_handle::<T>(input, k, &rt, &t_allocs, true);
+    let u = dip_handle::<T>(input, k, &rt, &t_allocs, false);
+    drop(rt);
+    format!("T={} Arc={} Unique={}", t_shown, a, u)
+}
+
 // ------------------------------------------------------------------------------------------------
 // payload descriptions
 
@@ -759,6 +862,20 @@ fn answer(line: &str) -> String {
                 P::Seq(_) => de_case::<Vec<u16>>(&v, k),
                 P::Opt(_) => de_case::<Option<u8>>(&v, k),
                 P::Outer(_) => de_case::<Outer>(&v, k),
+            }
+        }
+        "dip" => {
+            let v = to_v(&p);
+            match &p {
+                P::U8(_) => dip_case::<u8>(&v, k),
+                P::U64(_) => dip_case::<u64>(&v, k),
+                P::I32(_) => dip_case::<i32>(&v, k),
+                P::Bool(_) => dip_case::<bool>(&v, k),
+                P::Str(_) => dip_case::<String>(&v, k),
+                P::Pair(..) => dip_case::<(u32, String)>(&v, k),
+                P::Seq(_) => dip_case::<Vec<u16>>(&v, k),
+                P::Opt(_) => dip_case::<Option<u8>>(&v, k),
+                P::Outer(_) => dip_case::<Outer>(&v, k),
             }
         }
         _ => "bad-query".to_string(),
